@@ -23,6 +23,8 @@ let stat k = Hashtbl.replace stats k (1 + (try Hashtbl.find stats k with Not_fou
 let case_nontrivial = ref false
 (* known-finding classes the current history falls in, per property *)
 let classes : (string * string) list ref = ref []   (* (finding id, description) *)
+let know_of : (string, int list) Hashtbl.t = Hashtbl.create 8
+let last_vm : (string * string * string) option ref = ref None
 
 let report prop what =
   (* a violation inside a listed known-finding class is reported as KNOWN *)
@@ -39,6 +41,7 @@ let expect_all props what b = List.iter (fun p -> expect p what b) props
 
 let on_case (_id : string) (t : string) (line : string) =
   ty := t; tainted := false; merges_seen := false; hist := []; pre := []; case_nontrivial := false; classes := [];
+  Hashtbl.reset know_of; last_vm := None;
   (match parse_sx line with
    | L [A "case"; _; _; A d] -> disc := int_of_string d
    | _ -> disc := 0);
@@ -161,6 +164,116 @@ let c14_call fn a =
        | _ -> ())
   | _ -> ()
 
+(* ---- C16 / C17 / C19 / C07 on the implementation's verdicts and contexts *)
+let carries_dot o = (try (match variant o with "Add" | "Up" | "Put" | "Insert" | "Delete" -> true | _ -> false) with Bad _ -> false)
+let has_pending (s : sx) : bool =
+  (* any non-empty "deferred" table at any depth *)
+  let rec go = function
+    | L [A "deferred"; L (A "M" :: (_ :: _))] -> true
+    | L l -> List.exists go l
+    | A _ -> false in
+  go s
+
+let generic_call pre_ fn a =
+  let ordered_type = List.mem !ty ["orswot"; "list"; "mapmv"; "mapor"; "mapmm"] in
+  match fn, a with
+  | "validate_op", (s :: o :: rest) when ordered_type && pre_ = !ty ->
+      let verdict = (match List.rev rest with v :: _ -> v | [] -> A "ok") in
+      let is_ok = (verdict = A "ok") in
+      (match !pre with
+       | [A "edit"; A r; A actor] when r = actor ->
+           (* at its own origin the op must be accepted *)
+           let k1 = is_map !ty && (match o with L (A "V" :: A "Up" :: _) -> true | _ -> false) in
+           count "C16";
+           if not is_ok then begin
+             let saved = !classes in
+             (* K1: Map rejects although the map-clock gate passes *)
+             if k1 then begin
+               let d = dot_sx (field "dot" o) in
+               let gate = int_of_n d.dcounter <= int_of_n (vget (vc_sx (field "clock" s)) d.dactor) + 1 in
+               if gate then classes := ("K1", "map validate_op entry/nested continuity") :: !classes
+             end;
+             report "C16" (Printf.sprintf "validate_op rejects an op at its own origin: %s -> %s" (String.sub (show_sx o) 0 (min 200 (String.length (show_sx o)))) (show_sx verdict));
+             classes := saved
+           end
+       | [A ("deliver" | "probe"); A r; A i; _] when carries_dot o || !ty = "list" ->
+           let i = int_of_string i in
+           let know = (try Hashtbl.find know_of r with Not_found -> []) in
+           let h = Array.of_list (List.rev !hist) in
+           let (author, op_i, _) = h.(i) in
+           let relevant (o' : sx) = if !ty = "list" then true else carries_dot o' in
+           if relevant op_i then begin
+             let missing = ref false in
+             Array.iteri (fun j (a', o', _) -> if j < i && a' = author && relevant o' && not (List.mem j know) then missing := true) h;
+             count "C16";
+             let expected_ok = not !missing in
+             if expected_ok && not is_ok then begin
+               let saved = !classes in
+               if is_map !ty then begin
+                 let d = dot_sx (field "dot" o) in
+                 let gate = int_of_n d.dcounter <= int_of_n (vget (vc_sx (field "clock" s)) d.dactor) + 1 in
+                 if gate then classes := ("K1", "map validate_op entry/nested continuity") :: !classes
+               end;
+               report "C16" (Printf.sprintf "validate_op rejects op %d although every earlier op of its actor is applied: %s" i (show_sx verdict));
+               classes := saved
+             end
+             else if (not expected_ok) && is_ok then
+               report "C16" (Printf.sprintf "validate_op accepts op %d although an earlier op of its actor is missing" i)
+           end
+       | _ -> ())
+  | "validate_merge", [s; o; v] when not !tainted ->
+      count "C17";
+      if v <> A "ok" then report "C17" ("validate_merge rejects a pair of states produced by correct use");
+      let key = (show_sx s, show_sx o, atom v) in
+      (match !last_vm with
+       | Some (s', o', v') when s' = show_sx o && o' = show_sx s ->
+           count "C17";
+           if v' <> atom v then report "C17" "validate_merge gives different verdicts in the two directions"
+       | _ -> ());
+      last_vm := Some key
+  | _ -> ()
+
+let serde_call a =
+  match a with
+  | A _name :: s :: A "err" :: _ ->
+      count "C19";
+      let saved = !classes in
+      if has_pending s then classes := ("K3", "pending remove not serialisable") :: !classes;
+      report "C19" "serde_json cannot serialise this state";
+      classes := saved
+  | A _name :: _ :: A "ok" :: _json :: _back :: [A flag] ->
+      count "C19";
+      if flag <> "eq" then report "C19" ("the deserialised value is not == to the original (" ^ flag ^ ")")
+  | A _name :: _ :: A "deerr" :: _ -> count "C19"; report "C19" "serde_json cannot deserialise its own output"
+  | _ -> ()
+
+(* C07: contexts handed out by reads *)
+let ctx_call pre_ fn a =
+  let check_ctx r =
+    (try
+       let add = vc_sx (field "add_clock" r) and rm = vc_sx (field "rm_clock" r) in
+       count "C07";
+       if not (vwfb add && vwfb rm) then report "C07" "a read context stores a zero counter";
+       if not (List.for_all (fun (x, n) -> int_of_n n <= int_of_n (vget add x)) (vc_to_list rm)) then
+         report "C07" (Printf.sprintf "rm_clock %s exceeds add_clock %s" (show_vc rm) (show_vc add))
+     with Bad _ -> ()) in
+  (match fn, a with
+   | ("read" | "read_ctx" | "contains" | "get" | "len" | "is_empty"), _ when List.mem pre_ ["orswot"; "mvreg"; "mapmv"; "mapor"; "mapmm"] && pre_ = !ty ->
+       (match List.rev a with r :: _ -> check_ctx r | [] -> ())
+   | ("iter" | "keys" | "values"), _ when pre_ = !ty ->
+       (match List.rev a with L (A "L" :: rs) :: _ -> List.iter check_ctx rs | _ -> ())
+   | "derive_add", [_r; A actor; c] when pre_ = "ctx" ->
+       (match !pre with
+        | [A "edit"; A r; A act] when r = act && act = actor && not !tainted ->
+            (* freshness: the derived dot is the actor's next unused one *)
+            let mine = List.length (List.filter (fun (a', o, _) -> string_of_int a' = actor && carries_dot o) !hist) in
+            let d = dot_sx (field "dot" c) in
+            count "C07";
+            if int_of_n d.dcounter <> mine + 1 || show_n d.dactor <> actor then
+              report "C07" (Printf.sprintf "derive_add_ctx hands out dot %s but actor %s has issued %d dots" (show_dot d) actor mine)
+        | _ -> ())
+   | _ -> ())
+
 let on_call (case : string) (cmd : string) (f : string) (a : sx list) =
   cur := (case, cmd);
   let pre_, fn = match String.index_opt f '.' with
@@ -170,7 +283,9 @@ let on_call (case : string) (cmd : string) (f : string) (a : sx list) =
     (match pre_ with
      | "vclock" -> c10_call fn a
      | "ident" -> c14_call fn a
-     | _ -> ())
+     | "serde" -> if not !tainted then serde_call a
+     | _ -> ());
+    if not !tainted && discipline_ok () then begin generic_call pre_ fn a; ctx_call pre_ fn a end
   with Bad m -> report "DRIVER" ("monitor error: " ^ m)
 
 (* ---- spec comparison at every observation *)
@@ -230,7 +345,8 @@ let on_event (case : string) (cmd : string) (x : sx) =
     | L [A "ev"; A "deliver"; _; _] -> stat "deliveries"; case_nontrivial := true
     | L [A "ev"; A "merge"; _; _] -> stat "merges"; merges_seen := true; case_nontrivial := true
     | L [A "ev"; A "spawn"; _; _] -> stat "spawns"
-    | L [A "obs"; _; L (A "know" :: know); s] ->
+    | L [A "obs"; A r; L (A "know" :: know); s] ->
+        Hashtbl.replace know_of r (List.map int_sx know);
         if not !tainted && discipline_ok () then spec_check (List.map int_sx know) s
     | L [A "canon"; _; A same; A reads; c] ->
         if not !tainted && discipline_ok () then begin
